@@ -544,3 +544,16 @@ def run(ctx: lib.Ctx) -> None:
             rep = {'program': direct_bad[0][0], 'observed': jsonable(direct_bad[0][1])}
         rep['correspondence'] = 'C16/Interpreter(PUSH..;OP) vs Michelson.Arith.run'
         ctx.violation('implementation no longer corresponds to the model the theorems are about', rep, found=False)
+
+
+def replay(ctx: lib.Ctx, doc: dict) -> bool:
+    """./check C16 --replay file : re-run the recorded program; True (exit 1) if it still deviates."""
+    text = doc.get('program')
+    if not text:
+        return False
+    obs = jsonable(run_impl(text))
+    print('observed now:', obs)
+    if 'expected' in doc:
+        print('expected    :', doc['expected'])
+        return obs != doc['expected']
+    return obs != doc.get('observed')
